@@ -140,8 +140,10 @@ pub fn run(src: &str, policy: &Policy) -> HostRun {
                 rounds += 1;
                 out.suspensions += 1;
                 steps_since_host = 0;
-                if rounds > 200 {
-                    out.problems.push(("no-progress".into(), "more than 200 suspension rounds".into()));
+                // a legitimate program suspends about twice per order (issue, settlement); the
+                // budget grows with the orders issued so that only rounds without new orders count
+                if rounds > 200 + 3 * issued.len() {
+                    out.problems.push(("no-progress".into(), "more than 200 suspension rounds beyond three per issued order".into()));
                     out.outcome = "too-many-rounds".into();
                     break;
                 }
